@@ -53,7 +53,7 @@ def report(files):
     return res
 if __name__ == '__main__':
     props = {json.loads(l)['id']: json.loads(l) for l in open(os.path.join(ROOT, 'properties.jsonl'))}
-    for p in sys.argv[1:] or sorted(props):
+    for p in [a for a in sys.argv[1:] if not a.startswith("-")] or sorted(props):
         r = report(props[p]['anchors'].get('files', []))
         print(p, 'verified', r['verified'], 'opaque-only', r['opaque_only'], 'not under contract', len(r['not_under_contract']))
         if '-v' in sys.argv: print('   ' + '\n   '.join(r['not_under_contract']))
